@@ -9,7 +9,7 @@ if [ ! -d "$WT" ]; then git -C /repo worktree add -q --detach "$WT" HEAD || exit
 git -C "$WT" checkout -q --detach "$(git -C /repo rev-parse HEAD)" && git -C "$WT" checkout -q -- . && git -C "$WT" clean -fdq
 PP="$WT/src:$WT/plugins/fcp_dbc:$WT/plugins/fcp_can_c:$WT/plugins/fcp_cpp:$WT/plugins/fcp_nop"
 if [ -f "$D/demo.py" ] && [ "${SKIP_DEMO:-0}" != "1" ]; then
-  (cd "$WT" && sed "s#/tmp/seed/C[0-9][0-9]#$WT#g" "$D/demo.py" > /tmp/seedtest_demo.py && PYTHONPATH="$PP" timeout 600 /venv/bin/python /tmp/seedtest_demo.py >/tmp/seedtest_demo_clean.log 2>&1); echo "demo on clean tree: exit $?"
+  (cd "$WT" && sed "s#/tmp/seed/C[0-9][0-9]#$WT#g" "$D/demo.py" > /tmp/seedtest_demo_$(basename $WT).py && PYTHONPATH="$PP" timeout 600 /venv/bin/python /tmp/seedtest_demo_$(basename $WT).py >/tmp/seedtest_demo_clean_$(basename $WT).log 2>&1); echo "demo on clean tree: exit $?"
 fi
 git -C "$WT" apply "$D/patch.diff" || { echo "PATCH DOES NOT APPLY"; exit 2; }
 git -C "$WT" diff --stat | tail -1
@@ -17,7 +17,7 @@ if [ "${SKIP_TESTS:-0}" != "1" ]; then
   (cd "$WT" && PYTHONPATH="$PP" /venv/bin/python -m pytest -q -p no:cacheprovider -x --deselect plugins/fcp_cpp 2>&1 | tail -1)
 fi
 if [ -f "$D/demo.py" ] && [ "${SKIP_DEMO:-0}" != "1" ]; then
-  (cd "$WT" && PYTHONPATH="$PP" timeout 600 /venv/bin/python /tmp/seedtest_demo.py >/tmp/seedtest_demo_mut.log 2>&1); echo "demo on changed tree: exit $?"
+  (cd "$WT" && PYTHONPATH="$PP" timeout 600 /venv/bin/python /tmp/seedtest_demo_$(basename $WT).py >/tmp/seedtest_demo_mut_$(basename $WT).log 2>&1); echo "demo on changed tree: exit $?"
 fi
 for id in "$@"; do
   out=$(cd /verif && VERIF_REPO="$WT" ./check "$id" --tier "${TIER:-quick}" 2>&1); rc=$?
